@@ -73,9 +73,14 @@ S_GMACRO = (
     '<span metal:use-macro="template.macros[\'m\']">x</span><u>${h}-${g}</u></div>')
 S_ERR = ('<ul><li tal:repeat="i items">${i}:${100 // (i - 3)}${y()}</li>'
          '<li tal:condition="not: items[0] - 2">${missing_name}</li></ul>')
+# i18n:attributes naming attributes the element does not carry, more than
+# one message id in one attribute list
+S_I18NATTR = ('<div i18n:domain="d"><img src="a.png" i18n:attributes="title; '
+              'alt; longdesc" /><a href="#" title="T" lang="x" '
+              'i18n:attributes="title t-id; lang l-id; rel">${name}${y()}</a></div>')
 S_NS = ('<br xmlns:tal="urn:example:my-own-vocabulary" tal:role="x" />'
         '<p xmlns:q="urn:q" q:a="1">${name}${y()}</p>')
-STRINGS = {"err": S_ERR, "ns": S_NS, "gmacro": S_GMACRO, "imp1": S_IMP1, "imp2": S_IMP2, "global": S_GLOBAL, "macro": S_MACRO, "code": S_CODE,
+STRINGS = {"i18nattr": S_I18NATTR, "err": S_ERR, "ns": S_NS, "gmacro": S_GMACRO, "imp1": S_IMP1, "imp2": S_IMP2, "global": S_GLOBAL, "macro": S_MACRO, "code": S_CODE,
            "i18n": S_I18N, "nested": S_NESTED}
 
 F_LIB = (
